@@ -267,7 +267,8 @@ theorem write_spec (i : Nat) (it : Item) (s : St) : WriteOut i it s (write i it 
 
 theorem react_spec (i : Nat) (it : Item) (p : Proc) :
     (react i it p).buf = p.buf ++ it.out.map (tag i) ∧ (react i it p).waited = p.waited
-    ∧ (p.dying = false → (react i it p).dying = it.die.isSome) := by
+    ∧ (p.dying = false → (react i it p).dying = it.die.isSome)
+    ∧ (∀ d, it.die = some d → (react i it p).code = d.code) := by
   unfold react
   cases it.die <;> simp [tag]
 
@@ -280,6 +281,7 @@ structure SendPost (i : Nat) (it : Item) (n0 : Nat) (served : Bool) (s1 : St) : 
   servedBuf : served = true → ∃ pre, (∀ l ∈ pre, l.runNote = true) ∧
       s1.proc.buf = pre ++ it.out.map (tag i) ∧ s1.proc.dying = it.die.isSome
   voidBuf : served = false → Inv s1 ∧ s1.proc.dying = true
+  servedCode : served = true → ∀ d, it.die = some d → s1.proc.code = d.code
 
 theorem sendW_spec (c : Cfg) (i : Nat) (it : Item) (s0 : St) (h0 : Inv s0) (hnw : s0.proc.waited = false) :
     ∃ served s1, sendW c i it s0 = .ok (served, s1) ∧ SendPost i it s0.runs.length served s1 := by
@@ -288,15 +290,16 @@ theorem sendW_spec (c : Cfg) (i : Nat) (it : Item) (s0 : St) (h0 : Inv s0) (hnw 
   generalize write i it s0 = r at h
   cases h with
   | served s' hw hd hp hr =>
-    refine ⟨true, s', rfl, ?_, ?_, ?_, ?_⟩
+    refine ⟨true, s', rfl, ?_, ?_, ?_, ?_, ?_⟩
     · rw [hp, (react_spec i it s0.proc).2.1]; exact hw
     · rw [hr]; exact Nat.le_refl _
     · intro _
       exact ⟨s0.proc.buf, h0, (by rw [hp]; exact (react_spec i it s0.proc).1),
-             (by rw [hp]; exact (react_spec i it s0.proc).2.2 hd)⟩
+             (by rw [hp]; exact (react_spec i it s0.proc).2.2.1 hd)⟩
     · intro h; cases h
+    · intro _ d hdie; rw [hp]; exact (react_spec i it s0.proc).2.2.2 d hdie
   | void s' hw hd hb hd' hw' hr =>
-    refine ⟨false, s', rfl, hw', (by rw [hr]; exact Nat.le_refl _), (by intro h; cases h), ?_⟩
+    refine ⟨false, s', rfl, hw', (by rw [hr]; exact Nat.le_refl _), (by intro h; cases h), ?_, (by intro h; cases h)⟩
     intro _
     refine ⟨?_, hd'⟩
     intro l hl; rw [hb] at hl; exact h0 l hl
@@ -308,13 +311,14 @@ theorem sendW_spec (c : Cfg) (i : Nat) (it : Item) (s0 : St) (h0 : Inv s0) (hnw 
     generalize write i it (openProc c s') = r2 at h2
     cases h2 with
     | served s2 hw2 hd2 hp2 hr2 =>
-      refine ⟨true, s2, rfl, ?_, ?_, ?_, ?_⟩
+      refine ⟨true, s2, rfl, ?_, ?_, ?_, ?_, ?_⟩
       · rw [hp2, (react_spec i it _).2.1]; exact hw2
       · rw [hr2, ho.1, hr]; exact Nat.le_succ _
       · intro _
         exact ⟨(openProc c s').proc.buf, ho.2.2.2, (by rw [hp2]; exact (react_spec i it _).1),
-               (by rw [hp2]; exact (react_spec i it _).2.2 hd2)⟩
+               (by rw [hp2]; exact (react_spec i it _).2.2.1 hd2)⟩
       · intro h; cases h
+      · intro _ d hdie; rw [hp2]; exact (react_spec i it _).2.2.2 d hdie
     | void s2 hw2 hd2 => rw [ho.2.2.1] at hd2; cases hd2
     | closed hw2 => rw [ho.2.1] at hw2; cases hw2
     | failed s2 hd2 => rw [ho.2.2.1] at hd2; cases hd2
@@ -427,6 +431,78 @@ theorem decode_err (c : Cfg) (content : List Line) (e : Err) (h : decode c conte
     · cases h
   · split at h <;> cases h
 
+/-- the (key, value) pairs `_sexpr_data` yields for the given content lines -/
+def kvsC (content : List Line) : List (Nat × SVal) :=
+  sexprData (((content.map (·.toks)).flatten).length + 1) ((content.map (·.toks)).flatten)
+
+def kvsOf (ls : List Line) : List (Nat × SVal) := kvsC (contentOf ls)
+
+/-- the shapes `_tsdb_response` can digest (the shapes ACE produces): `:p-input`/`:p-tokens` carry a string,
+`:results` a list of lists of (key . value) fields, no `:chart`.  On anything else the real code raises
+TypeError / ValueError / AttributeError (the model: `Err.unmodelled`). -/
+def shapedKvs : List (Nat × SVal) → Bool
+  | [] => true
+  | (k, v) :: r =>
+    (if k = kPInput then (match v with | .txt _ => true | _ => false)
+     else if k = kPTokens then (match v with | .txt _ => true | _ => false)
+     else if k = kResults then (match v with | .list xs => (resultList xs).isSome | _ => false)
+     else if k = kChart then false
+     else true) && shapedKvs r
+
+theorem tsdbFold_ok_of_shaped : ∀ (kvs : List (Nat × SVal)) (acc : Tsdb), shapedKvs kvs = true →
+    ∃ t, tsdbFold kvs acc = .ok t := by
+  intro kvs
+  induction kvs with
+  | nil => intro acc _; exact ⟨acc, rfl⟩
+  | cons kv r ih =>
+    intro acc h
+    obtain ⟨k, v⟩ := kv
+    simp only [shapedKvs, Bool.and_eq_true] at h
+    obtain ⟨h1, h2⟩ := h
+    simp only [tsdbFold]
+    by_cases hk1 : k = kPInput
+    · simp only [hk1, if_true] at h1 ⊢
+      cases v <;> simp at h1 ⊢
+      exact ih _ h2
+    · simp only [hk1, if_false] at h1 ⊢
+      by_cases hk2 : k = kPTokens
+      · simp only [hk2, if_true] at h1 ⊢
+        cases v <;> simp at h1 ⊢
+        exact ih _ h2
+      · simp only [hk2, if_false] at h1 ⊢
+        by_cases hk3 : k = kResults
+        · simp only [hk3, if_true] at h1 ⊢
+          cases v with
+          | list xs =>
+            simp only at h1 ⊢
+            cases hr : resultList xs with
+            | none => rw [hr] at h1; simp at h1
+            | some rs => simp only; exact ih _ h2
+          | num n => simp at h1
+          | txt n => simp at h1
+          | dot => simp at h1
+          | pair a b => simp at h1
+        · simp only [hk3, if_false] at h1 ⊢
+          by_cases hk4 : k = kChart
+          · simp [hk4] at h1
+          · simp only [hk4, if_false]
+            exact ih _ h2
+
+theorem decode_err_unshaped (c : Cfg) (content : List Line) (e : Err) (h : decode c content = .error e) :
+    shapedKvs (kvsC content) = false := by
+  cases hs : shapedKvs (kvsC content) with
+  | false => rfl
+  | true =>
+    exfalso
+    obtain ⟨t, ht⟩ := tsdbFold_ok_of_shaped _ {} hs
+    unfold decode at h
+    split at h
+    · simp only [] at h
+      unfold kvsC at ht
+      rw [ht] at h
+      cases h
+    · split at h <;> cases h
+
 theorem decode_nil (c : Cfg) : ∃ rs, decode c [] = .ok rs ∧
     (match rs with | .lines xs => xs.isEmpty | .gen xs => xs.isEmpty | .tsdb t => t.results.isEmpty) = true := by
   unfold decode
@@ -454,7 +530,9 @@ structure RecvPost (c : Cfg) (inp : List Char) (s1 s2 : St) (o : Except Err Resp
   ok_src : ∀ r, o = .ok r → r.src = lines.map (·.owner)
   ok_nl : ∀ r, o = .ok r → r.srcNl = lines.map (·.nl)
   ok_empty : contentOf lines = [] → ∃ r, o = .ok r ∧ r.isEmpty = true
-  err_only : ∀ e, o = .error e → e = .unmodelled ∧ usesTsdb c = true
+  err_only : ∀ e, o = .error e → e = .unmodelled ∧ usesTsdb c = true ∧ shapedKvs (kvsOf lines) = false
+  keep : (usesTsdb c && c.front == .parser) = false → s1.proc.dying = true →
+      s2.proc.dying = true ∧ s2.proc.code = s1.proc.code
 
 theorem fixSurface_srcNl (r : Resp) : (fixSurface r).srcNl = r.srcNl := by
   unfold fixSurface
@@ -482,16 +560,22 @@ def recvOut (c : Cfg) (inp : List Char) (s1 sA : St) (all : List Line) (eof : Bo
 
 theorem recv_tail (c : Cfg) (inp : List Char) (s1 sA : St) (all : List Line) (eof : Bool)
     (hinv : Inv sA) (hlev : level s1 ≤ level sA) (hruns : s1.runs.length ≤ sA.runs.length)
-    (heof : eof = true → 2 * s1.runs.length + 1 ≤ level sA) :
+    (heof : eof = true → 2 * s1.runs.length + 1 ≤ level sA)
+    (hk : s1.proc.dying = true → sA.proc.dying = true ∧ sA.proc.code = s1.proc.code) :
     RecvPost c inp s1 (recvOut c inp s1 sA all eof).1 (recvOut c inp s1 sA all eof).2 all := by
   have har := afterRead_spec c sA hinv
+  have hkeep : (usesTsdb c && c.front == .parser) = false → s1.proc.dying = true →
+      (afterRead c sA).proc.dying = true ∧ (afterRead c sA).proc.code = s1.proc.code := by
+    intro hc hd
+    have : afterRead c sA = sA := by unfold afterRead; simp [hc]
+    rw [this]; exact hk hd
   unfold recvOut
   have hnil := decode_nil c
   generalize hd : decode c ((all.filter (fun x : Line => !x.empty)).filter (fun x : Line => x.cls == Cls.content))
     = dres
   cases dres with
   | error e =>
-    refine ⟨har.1, Nat.le_trans hlev har.2.1, Nat.le_trans hruns har.2.2, ?_, ?_, ?_, ?_, ?_, ?_⟩
+    refine ⟨har.1, Nat.le_trans hlev har.2.1, Nat.le_trans hruns har.2.2, ?_, ?_, ?_, ?_, ?_, ?_, hkeep⟩
     · intro r' h; cases h
     · intro r' h; cases h
     · intro r' h; cases h
@@ -503,9 +587,9 @@ theorem recv_tail (c : Cfg) (inp : List Char) (s1 sA : St) (all : List Line) (eo
     · intro e' he'
       injection he' with he'
       subst he'
-      exact decode_err c _ _ hd
+      exact ⟨(decode_err c _ _ hd).1, (decode_err c _ _ hd).2, decode_err_unshaped c _ _ hd⟩
   | ok rs =>
-    refine ⟨har.1, Nat.le_trans hlev har.2.1, Nat.le_trans hruns har.2.2, ?_, ?_, ?_, ?_, ?_, ?_⟩
+    refine ⟨har.1, Nat.le_trans hlev har.2.1, Nat.le_trans hruns har.2.2, ?_, ?_, ?_, ?_, ?_, ?_, hkeep⟩
     · intro r' h; injection h with h; subst h
       have hf := fixSurface_fields
         { baseResp inp (curRun s1) (all.filter (fun x : Line => !x.empty)) all eof with results := rs }
@@ -549,12 +633,14 @@ theorem receive_spec (c : Cfg) (inp : List Char) (s1 : St) (t : Terminus) (ts : 
   | done =>
     simp only []
     refine recv_tail c inp s1 (afterLines s1 r) r.lines false hinvA (Nat.le_of_eq hlevA) (Nat.le_of_eq hal.1.symm)
-      (by intro h; cases h)
+      (by intro h; cases h) (by intro hd; exact ⟨by simpa [afterLines] using hd, by simp [afterLines]⟩)
   | eof =>
     simp only []
     have hc := closeProc_spec c (afterLines s1 r)
     have hlc := level_closeProc c (afterLines s1 r)
-    refine recv_tail c inp s1 (closeProc c (afterLines s1 r)).2 r.lines true ?_ ?_ ?_ ?_
+    refine recv_tail c inp s1 (closeProc c (afterLines s1 r)).2 r.lines true ?_ ?_ ?_ ?_ ?_
+    rotate_right
+    · intro hd; simp [closeProc, afterLines, hd]
     · intro l hl; rw [hc.2.2] at hl; cases hl
     · rw [← hlc, hal.1]; unfold level wbit; split <;> omega
     · rw [hc.1, hal.1]; exact Nat.le_refl _
@@ -562,6 +648,12 @@ theorem receive_spec (c : Cfg) (inp : List Char) (s1 : St) (t : Terminus) (ts : 
 
 
 /-! ## one interaction -/
+
+/-- the answer the processor writes for this input decodes into shapes `_tsdb_response` can digest -/
+def shapedItem (c : Cfg) (it : Item) : Bool :=
+  match termini c with
+  | t :: ts => shapedKvs (kvsOf (readLines t it.die.isSome (usesTsdb c) it.out (ts.length + 1)).lines)
+  | [] => true
 
 structure StepPost (c : Cfg) (i : Nat) (it : Item) (s s' : St) (o : Except Err Resp) : Prop where
   inv : Inv s'
@@ -574,7 +666,9 @@ structure StepPost (c : Cfg) (i : Nat) (it : Item) (s s' : St) (o : Except Err R
   ok_complete : ∀ r, o = .ok r → usesTsdb c = false →
       (∀ b ∈ r.srcNl, b = true) ∧ (completeContent it = [] → r.isEmpty = true)
   ok_skipped : ∀ r, o = .ok r → (r.skipped = true ↔ validate c.front it.text = none)
-  err_only : ∀ e, o = .error e → e = .unmodelled ∧ usesTsdb c = true
+  err_only : ∀ e, o = .error e → e = .unmodelled ∧ usesTsdb c = true ∧ shapedItem c it = false
+  last : ∀ r d, o = .ok r → r.served = true → it.die = some d →
+      (usesTsdb c && c.front == .parser) = false → s'.proc.dying = true ∧ s'.proc.code = d.code
 
 theorem contentOf_map_tag (i : Nat) (ls : List Line) : contentOf (ls.map (tag i)) = (contentOf ls).map (tag i) := by
   unfold contentOf
@@ -592,6 +686,14 @@ theorem contentOf_map_tag (i : Nat) (ls : List Line) : contentOf (ls.map (tag i)
       · simp only [hc, if_true, List.map_cons, ih]
       · simp only [hc]; exact ih
 
+theorem kvsOf_map_tag (i : Nat) (ls : List Line) : kvsOf (ls.map (tag i)) = kvsOf ls := by
+  unfold kvsOf kvsC
+  rw [contentOf_map_tag]
+  have : List.map (fun x : Line => x.toks) (List.map (tag i) (contentOf ls))
+      = List.map (fun x : Line => x.toks) (contentOf ls) := by
+    rw [List.map_map]; rfl
+  rw [this]
+
 /-- facts about the lines `_result_lines` will see after a `send` -/
 theorem lines_after_send (c : Cfg) (i : Nat) (it : Item) (sv : Bool) (s1 : St) (n0 : Nat)
     (hp : SendPost i it n0 sv s1) (hwf : WF c it) (t : Terminus) (ts : List Terminus) (ht : termini c = t :: ts) :
@@ -603,16 +705,19 @@ theorem lines_after_send (c : Cfg) (i : Nat) (it : Item) (sv : Bool) (s1 : St) (
     (usesTsdb c = false →
       (∀ l ∈ (readLines t s1.proc.dying (usesTsdb c) s1.proc.buf (ts.length + 1)).lines, l.nl = true) ∧
       (completeContent it = [] →
-        contentOf (readLines t s1.proc.dying (usesTsdb c) s1.proc.buf (ts.length + 1)).lines = [])) := by
+        contentOf (readLines t s1.proc.dying (usesTsdb c) s1.proc.buf (ts.length + 1)).lines = [])) ∧
+    (shapedItem c it = true →
+      shapedKvs (kvsOf (readLines t s1.proc.dying (usesTsdb c) s1.proc.buf (ts.length + 1)).lines) = true) := by
   cases sv with
   | false =>
     obtain ⟨hinv, hd⟩ := hp.voidBuf rfl
     rw [hd]
     have h1 := readLines_notes_only t true (usesTsdb c) s1.proc.buf (ts.length + 1) hinv
-    refine ⟨?_, readLines_not_hang t _ _ _, ?_, fun _ => h1.1, fun _ => ⟨?_, fun _ => ?_⟩⟩
+    refine ⟨?_, readLines_not_hang t _ _ _, ?_, fun _ => h1.1, fun _ => ⟨?_, fun _ => ?_⟩, fun _ => ?_⟩
     · intro l hl; exact hinv l (readLines_rest_sub t true _ _ _ l hl)
     · intro l hl; rw [h1.1] at hl; cases hl
     · intro l hl; rw [h1.1] at hl; cases hl
+    · rw [h1.1]; rfl
     · rw [h1.1]; rfl
   | true =>
     obtain ⟨pre, hpre, hbuf, hd⟩ := hp.servedBuf rfl
@@ -623,7 +728,14 @@ theorem lines_after_send (c : Cfg) (i : Nat) (it : Item) (sv : Bool) (s1 : St) (
       · exact hdone h
       · exact readLines_rest_nil t _ _ _ _ h
     have hsub := readLines_lines_sub t it.die.isSome (usesTsdb c) it.out (ts.length + 1)
-    refine ⟨?_, hnh, ?_, ?_, ?_⟩
+    refine ⟨?_, hnh, ?_, ?_, ?_, ?_⟩
+    rotate_right
+    · intro hsh
+      show shapedKvs (kvsOf (List.map (tag i) _)) = true
+      rw [kvsOf_map_tag]
+      unfold shapedItem at hsh
+      rw [ht] at hsh
+      exact hsh
     · intro l hl; simp only [hrest, List.map_nil] at hl; cases hl
     · intro l hl
       simp only [List.mem_map] at hl
@@ -664,7 +776,9 @@ theorem interact_spec (c : Cfg) (i : Nat) (it : Item) (s : St) (hinv : Inv s) (h
   unfold interact
   cases hv : validate c.front it.text with
   | none =>
-    refine ⟨hinv, Nat.le_refl _, Nat.le_refl _, ?_, ?_, ?_, ?_, ?_, ?_, ?_⟩
+    refine ⟨hinv, Nat.le_refl _, Nat.le_refl _, ?_, ?_, ?_, ?_, ?_, ?_, ?_, ?_⟩
+    rotate_right
+    · intro r d h hs; injection h with h; subst h; cases hs
     · intro r h; injection h with h; subst h; exact ⟨rfl, by intro ow h; cases h⟩
     · intro r h hs; injection h with h; subst h; cases hs
     · intro r h he; injection h with h; subst h; cases he
@@ -677,7 +791,7 @@ theorem interact_spec (c : Cfg) (i : Nat) (it : Item) (s : St) (hinv : Inv s) (h
     obtain ⟨sv, s1, he, hpost⟩ := send_spec c i it s hinv
     simp only [he]
     obtain ⟨t, ts, ht⟩ := termini_ne_nil c
-    obtain ⟨h1, h2, h3, h4, h5⟩ := lines_after_send c i it sv s1 _ hpost hwf t ts ht
+    obtain ⟨h1, h2, h3, h4, h5, h6⟩ := lines_after_send c i it sv s1 _ hpost hwf t ts ht
     have hr := receive_spec c it.text s1 t ts ht h1 h2
     have hge := hpost.runs_ge
     have hpos : 1 ≤ s1.runs.length := by
@@ -693,19 +807,33 @@ theorem interact_spec (c : Cfg) (i : Nat) (it : Item) (s : St) (hinv : Inv s) (h
     cases o2 with
     | error e =>
       dsimp only at hr ⊢
-      refine ⟨hr.inv, Nat.le_trans hlev hr.level_mono, by have := hr.runs_mono; omega, ?_, ?_, ?_, ?_, ?_, ?_, ?_⟩
+      refine ⟨hr.inv, Nat.le_trans hlev hr.level_mono, by have := hr.runs_mono; omega, ?_, ?_, ?_, ?_, ?_, ?_, ?_, ?_⟩
+      rotate_right
+      · intro r d h; cases h
       · intro r h; cases h
       · intro r h; cases h
       · intro r h; cases h
       · intro r h; cases h
       · intro r h; cases h
       · intro r h; cases h
-      · intro e' h; injection h with h; subst h; exact hr.err_only _ rfl
+      · intro e' h; injection h with h; subst h
+        obtain ⟨he1, he2, he3⟩ := hr.err_only _ rfl
+        refine ⟨he1, he2, ?_⟩
+        cases hsi : shapedItem c it with
+        | false => rfl
+        | true => rw [h6 hsi] at he3; cases he3
     | ok r0 =>
       dsimp only at hr ⊢
       obtain ⟨hi1, hi2, hi3⟩ := hr.ok_input r0 rfl
       have hsrc := hr.ok_src r0 rfl
-      refine ⟨hr.inv, Nat.le_trans hlev hr.level_mono, by have := hr.runs_mono; omega, ?_, ?_, ?_, ?_, ?_, ?_, ?_⟩
+      refine ⟨hr.inv, Nat.le_trans hlev hr.level_mono, by have := hr.runs_mono; omega, ?_, ?_, ?_, ?_, ?_, ?_, ?_, ?_⟩
+      rotate_right
+      · intro r d h hs hdie hc; injection h with h; subst h
+        have hsv : sv = true := hs
+        obtain ⟨pre, _, _, hdy⟩ := hpost.servedBuf hsv
+        have hd1 : s1.proc.dying = true := by rw [hdy, hdie]; rfl
+        obtain ⟨k1, k2⟩ := hr.keep hc hd1
+        exact ⟨k1, by rw [k2]; exact hpost.servedCode hsv d hdie⟩
       · intro r h; injection h with h; subst h
         refine ⟨hi1, ?_⟩
         intro ow how
@@ -739,6 +867,116 @@ theorem interact_spec (c : Cfg) (i : Nat) (it : Item) (s : St) (hinv : Inv s) (h
       · intro e h; cases h
 
 
+/-! ## a processor that never exits is never replaced -/
+
+def Alive (s : St) : Prop := s.proc.dying = false ∧ s.proc.waited = false ∧ s.proc.exited = false
+
+theorem poll_alive (s : St) (ha : Alive s) : poll s = (false, s) := by
+  obtain ⟨h1, h2, h3⟩ := ha
+  unfold poll; simp [h1, h2, h3]
+
+theorem readLines_false_not_eof (t : Terminus) (p : Bool) : ∀ (buf : List Line) (n : Nat),
+    (readLines t false p buf n).stop ≠ .eof := by
+  intro buf
+  induction buf with
+  | nil => intro n; cases n <;> simp [readLines]
+  | cons l buf ih =>
+    intro n
+    cases n with
+    | zero => simp [readLines]
+    | succ n =>
+      simp only [readLines]
+      split
+      · exact ih (n + 1)
+      · split
+        · exact ih (n + 1)
+        · exact ih _
+
+theorem recvOut_fst (c : Cfg) (inp : List Char) (s1 sA : St) (all : List Line) (eof : Bool) :
+    (recvOut c inp s1 sA all eof).1 = afterRead c sA := by
+  unfold recvOut; split <;> rfl
+
+theorem afterRead_alive (c : Cfg) (s : St) (ha : Alive s) : afterRead c s = s := by
+  unfold afterRead
+  split
+  · rw [poll_alive s ha]; simp
+  · rfl
+
+theorem receive_alive (c : Cfg) (inp : List Char) (s1 : St) (ha : Alive s1) : Alive (receive c inp s1).1 := by
+  obtain ⟨t, ts, ht⟩ := termini_ne_nil c
+  unfold receive resultLines
+  simp only [ht]
+  generalize hr : readLines t s1.proc.dying (usesTsdb c) s1.proc.buf (ts.length + 1) = r
+  have hne : r.stop ≠ .eof := by rw [← hr, ha.1]; exact readLines_false_not_eof t _ _ _
+  have hfold : ({ s1 with proc := { s1.proc with buf := r.rest }, runs := applyNotes r.notes s1.runs } : St)
+      = afterLines s1 r := rfl
+  rw [hfold]
+  have hal : Alive (afterLines s1 r) := ⟨ha.1, ha.2.1, ha.2.2⟩
+  cases hs : r.stop with
+  | hang => exact ha
+  | eof => exact absurd hs hne
+  | done =>
+    simp only []
+    show Alive (recvOut c inp s1 (afterLines s1 r) r.lines false).1
+    rw [recvOut_fst, afterRead_alive c _ hal]
+    exact hal
+
+theorem interact_alive (c : Cfg) (i : Nat) (it : Item) (s : St) (ha : Alive s) (hd : it.die = none) :
+    Alive (interact c i it s).1 := by
+  unfold interact
+  cases validate c.front it.text with
+  | none => exact ha
+  | some v =>
+    have hsend : send c i it s = .ok (true, { s with proc := react i it s.proc }) := by
+      unfold send
+      rw [poll_alive s ha]
+      simp only [Bool.false_eq_true, if_false]
+      unfold sendW write
+      simp [ha.1, ha.2.1]
+    simp only [hsend]
+    have ha1 : Alive ({ s with proc := react i it s.proc } : St) := by
+      unfold Alive react
+      simp [hd, ha.1, ha.2.1, ha.2.2]
+    have := receive_alive c it.text _ ha1
+    generalize receive c it.text { s with proc := react i it s.proc } = rv at this
+    obtain ⟨s2, o2⟩ := rv
+    cases o2 <;> exact this
+
+theorem settle_alive (s : St) (ha : Alive s) : settle s = s := by
+  unfold settle; simp [ha.1]
+
+theorem runFrom_alive (c : Cfg) : ∀ (items : List Item) (k : Nat) (s : St), Alive s →
+    (∀ it ∈ items, it.die = none) → Alive (runFrom c k items s).2 := by
+  intro items
+  induction items with
+  | nil => intro k s ha _; exact ha
+  | cons it rest ih =>
+    intro k s ha hd
+    simp only [runFrom]
+    have h1 := interact_alive c k it s ha (hd it (by simp))
+    generalize interact c k it s = sr at h1
+    obtain ⟨s1, o⟩ := sr
+    dsimp only at h1 ⊢
+    rw [settle_alive s1 h1]
+    have := ih (k + 1) s1 h1 (fun x hx => hd x (by simp [hx]))
+    generalize runFrom c (k + 1) rest s1 = rr at this
+    obtain ⟨os, s2⟩ := rr
+    exact this
+
+theorem runFrom_snoc (c : Cfg) : ∀ (pre : List Item) (it : Item) (k : Nat) (s : St),
+    runFrom c k (pre ++ [it]) s =
+      ((runFrom c k pre s).1 ++ [(interact c (k + pre.length) it (runFrom c k pre s).2).2],
+       settle (interact c (k + pre.length) it (runFrom c k pre s).2).1) := by
+  intro pre
+  induction pre with
+  | nil => intro it k s; simp [runFrom]
+  | cons a r ih =>
+    intro it k s
+    simp only [List.cons_append, runFrom, List.length_cons]
+    rw [ih it (k + 1) (settle (interact c k a s).1)]
+    have : k + 1 + r.length = k + (r.length + 1) := by omega
+    rw [this]
+
 /-! ## a whole session -/
 
 theorem settle_spec (s : St) : Inv (settle s) ↔ Inv s := by
@@ -755,7 +993,8 @@ structure RunPost (c : Cfg) (k : Nat) (items : List Item) (s : St) (os : List (E
         (∀ ow ∈ r.src, ow = some (k + j)) ∧ (r.skipped = true ↔ validate c.front it.text = none) ∧
         ((r.served = false ∨ it.out = []) → r.src = [] ∧ r.isEmpty = true) ∧
         (usesTsdb c = false → (∀ b ∈ r.srcNl, b = true) ∧ (completeContent it = [] → r.isEmpty = true))
-  err : ∀ (j : Nat) (e : Err), os[j]? = some (Except.error e) → e = Err.unmodelled ∧ usesTsdb c = true
+  err : ∀ (j : Nat) (e : Err), os[j]? = some (Except.error e) → e = Err.unmodelled ∧ usesTsdb c = true ∧
+        ∃ it, items[j]? = some it ∧ shapedItem c it = false
   sent_level : ∀ (j : Nat) (r : Resp), os[j]? = some (Except.ok r) → r.skipped = false → level s ≤ 2 * (r.run + 1)
   restart : ∀ (i j : Nat) (ri rj : Resp), i < j → os[i]? = some (Except.ok ri) → ri.eof = true → os[j]? = some (Except.ok rj) →
         rj.skipped = false → ri.run < rj.run
@@ -808,8 +1047,12 @@ theorem runFrom_spec (c : Cfg) : ∀ (items : List Item) (k : Nat) (s : St), Inv
       | zero =>
         simp only [List.getElem?_cons_zero, Option.some.injEq] at hj
         subst hj
-        exact hst.err_only e rfl
-      | succ j => simp only [List.getElem?_cons_succ] at hj; exact hrec.err j e hj
+        obtain ⟨e1, e2, e3⟩ := hst.err_only e rfl
+        exact ⟨e1, e2, it, rfl, e3⟩
+      | succ j =>
+        simp only [List.getElem?_cons_succ] at hj
+        obtain ⟨e1, e2, it', e3, e4⟩ := hrec.err j e hj
+        exact ⟨e1, e2, it', by simpa using e3, e4⟩
     · intro j r hj hs
       cases j with
       | zero =>
@@ -847,5 +1090,47 @@ theorem init_spec (c : Cfg) (orc : List Bool) : Inv (init c orc) ∧ (init c orc
   unfold init at hn
   rw [hn] at this
   simp at this
+
+/-! ## validation helpers -/
+
+theorem lstrip_nil_iff (s : List Char) : lstrip s = [] ↔ ∀ ch ∈ s, isPySpace ch = true := by
+  induction s with
+  | nil => simp [lstrip]
+  | cons a r ih =>
+    simp only [lstrip]
+    by_cases h : isPySpace a = true
+    · simp [h, ih]
+    · simp [h]
+
+theorem lstrip_head (s : List Char) : ∀ a r, lstrip s = a :: r → isPySpace a = false := by
+  induction s with
+  | nil => intro a r h; simp [lstrip] at h
+  | cons b t ih =>
+    intro a r h
+    simp only [lstrip] at h
+    by_cases hb : isPySpace b = true
+    · simp only [hb, if_true] at h; exact ih a r h
+    · simp only [hb] at h
+      injection h with h1 h2
+      subst h1; simpa using hb
+
+theorem pmScan_no_open : ∀ (s : List Char) (i : Nat) (d : Int), '[' ∉ s → (pmScan s i d none).1 = none := by
+  intro s
+  induction s with
+  | nil => intro i d _; rfl
+  | cons c r ih =>
+    intro i d h
+    have hc : c ≠ '[' := by intro e; exact h (by simp [e])
+    have hr : '[' ∉ r := by intro e; exact h (by simp [e])
+    simp only [pmScan, hc, if_false]
+    split
+    · split
+      · rfl
+      · exact ih _ _ hr
+    · exact ih _ _ hr
+
+theorem settle_fields (s : St) : (settle s).proc.dying = s.proc.dying ∧ (settle s).proc.waited = s.proc.waited
+    ∧ (settle s).proc.code = s.proc.code := by
+  unfold settle; split <;> exact ⟨rfl, rfl, rfl⟩
 
 end Verif.C19
